@@ -18,7 +18,50 @@ def norm_type(t):
     return re.sub(r'\s+', '', t)
 
 
+class UnitParams(tuple):
+    """Parameter list of a function with internal linkage whose (name, parameters) is also defined, with internal linkage,
+    in another unit: the two are different functions, told apart by the unit."""
+    def __new__(cls, ps, unit):
+        o = tuple.__new__(cls, ps)
+        o.unit = unit
+        return o
+
+    def __eq__(self, other):
+        return isinstance(other, UnitParams) and tuple.__eq__(self, other) and self.unit == other.unit
+
+    def __ne__(self, other):
+        return not self.__eq__(other)
+
+    def __hash__(self):
+        return hash((tuple(self), self.unit))
+
+
+def _internal_linkage(f):
+    if f.get('kind') != 'FunctionDecl':
+        p = f.get('_p')
+        while p is not None:
+            if p.get('kind') == 'NamespaceDecl' and not p.get('name'):
+                return True
+            p = p.get('_p')
+        return False
+    if f.get('storageClass') == 'static':
+        return True
+    p = f.get('_p')
+    while p is not None:
+        if p.get('kind') == 'NamespaceDecl' and not p.get('name'):
+            return True
+        p = p.get('_p')
+    return False
+
+
+def in_repo_src(f):
+    """Defined in a .cc file (a definition with internal linkage in a header is the same text in every unit)."""
+    return bool(re.search(r'\.(cc|cpp|cxx|c)\b', pos(f) or ''))
+
+
 def fkey(fn):
+    if '_fkey' in fn:
+        return fn['_fkey']
     ps = [norm_type(p) for p in split_params(qtype(fn))]
     return (qn(fn), tuple(ps))
 
@@ -38,6 +81,11 @@ class CallGraph(object):
             if _in_template_pattern(f):
                 continue
             k = fkey(f)
+            if k in self.defs and self.defs[k][0] is not u and _internal_linkage(f) and _internal_linkage(self.defs[k][1]) and \
+                    pos(f) != pos(self.defs[k][1]):
+                # one name, one signature, two units, internal linkage: two functions
+                k = (k[0], UnitParams(k[1], u.name))
+                f['_fkey'] = k
             self.defs.setdefault(k, (u, f))
             self.by_qn.setdefault(k[0], [])
             if k not in self.by_qn[k[0]]:
@@ -82,10 +130,16 @@ class CallGraph(object):
         if not ks:
             return []
         want = tuple(norm_type(p) for p in split_params(qtype(d)))
-        exact = [k for k in ks if k[1] == want]
+        du = d.get('_u')
+
+        def visible(k):
+            # a definition with internal linkage is the callee only of calls made in its own unit
+            (ku, kf) = self.defs[k]
+            return du is None or ku is du or not _internal_linkage(kf) or not in_repo_src(kf)
+        exact = [k for k in ks if tuple(k[1]) == want and visible(k)]
         if exact:
             return exact
-        same = [k for k in ks if len(k[1]) == len(want)]
+        same = [k for k in ks if len(k[1]) == len(want) and visible(k)]
         return same if len(same) == 1 else []
 
     def _calls(self, u, f):
